@@ -39,6 +39,13 @@ def gen(tier):
     out.append({'cin': 3, 'size': 6, 'stages': [pre, block(['c3', 'c1', 'id']), {'op': 'conv', 'cout': 4, 'k': 1, 'alias': 's1_pw'},
                                                  {'op': 'conv', 'cout': 3, 'alias': 's10'}], 'head': 'flatlin'})
     out.append({'cin': 3, 'size': 6, 'stages': [pre, block(['seq', 'c5'], twice=True), {'op': 'conv', 'cout': 4, 'k': 1, 'alias': 's1x'}], 'head': 'gaplin'})
+    # down-sampling blocks: the layers of one branch work at different resolutions
+    out.append({'cin': 3, 'size': 6, 'stages': [pre, block(['c3s2', 'poolconv', 'convpool'])], 'head': 'flatlin'})
+    out.append({'cin': 3, 'size': 6, 'stages': [pre, block(['bneck', 'convpool']), block(['c3', 'c1'])], 'head': 'gaplin'})
+    out.append({'cin': 3, 'size': 6, 'stages': [block(['poolconv', 'bneck', 'c3s2'], cout=4, twice=False), {'op': 'conv', 'cout': 3}], 'head': 'flatlin'})
+    # a FIXED layer invoked at two call sites (same / different resolution) next to a choice block
+    out.append({'cin': 3, 'size': 6, 'stages': [pre, {'op': 'twice', 'pool': True}, block(['c3', 'c1', 'id'])], 'head': 'flatlin'})
+    out.append({'cin': 3, 'size': 6, 'stages': [pre, block(['c3', 'seq']), {'op': 'twice'}], 'head': 'gaplin'})
     if tier == 'thorough':
         for n in (4,):
             for br in itertools.combinations(kinds, n):
